@@ -19,19 +19,24 @@ import (
 // detector, deadlock / step budget, every result equal to the same execution
 // run alone, cached templates carry their own text, parsed programs unchanged.
 
+// layoutText is executed after a page with the page's context (the
+// page + layout flow of buffalo): it pulls in whatever contentFor blocks the
+// page registered, with defaults for the others.
+const layoutText = `<html><%= contentOf("cA", {"label": "LA"}) { %>no A<% } %>|<%= contentOf("cB", {"label": "LB"}) { %>no B<% } %>|<%= contentOf("cC", {"label": n1}) { %>no C<% } %>|<%= contentOf("cD", {"label": "LD"}) { %>no D<% } %></html>`
+
 type cacheKeyed struct {
 	text string
 	in   cacheIn
 }
 
 type execOp struct {
-	kind    int // 0 Exec shared template, 1 Parse+Exec, 2 Render, 3 CacheSet+Render, 4 Clone+Exec
+	kind    int // 0 Exec shared template, 1 Parse+Exec, 2 Render, 3 CacheSet+Render, 4 Clone+Exec, 5 page then layout with ONE context
 	prog    int
 	variant int
 }
 
 func (o execOp) String() string {
-	k := [...]string{"Exec(shared template)", "Parse+Exec", "Render", "CacheSet(NewTemplate)+Render", "Clone+Exec"}[o.kind]
+	k := [...]string{"Exec(shared template)", "Parse+Exec", "Render", "CacheSet(NewTemplate)+Render", "Clone+Exec", "Exec(page) then Exec(layout) with the same context"}[o.kind]
 	return fmt.Sprintf("%s prog %d data %d", k, o.prog, o.variant)
 }
 
@@ -104,7 +109,7 @@ func c14ExecRun(t *rapid.T) {
 			o := execOp{prog: uni(t, "prog", nprog), variant: uni(t, "variant", nvar)}
 			switch scenario {
 			case 1, 2:
-				o.kind = []int{0, 0, 0, 4, 1}[uni(t, "kind", 5)]
+				o.kind = []int{0, 0, 0, 4, 1, 5, 5}[uni(t, "kind", 7)]
 			default:
 				o.kind = []int{1, 2, 2, 3}[uni(t, "kind", 4)]
 			}
@@ -142,6 +147,10 @@ func c14ExecRun(t *rapid.T) {
 
 	// ---- shared objects
 	plush.CacheEnabled = cacheOn
+	sharedLayout, lerr := plush.NewTemplate(layoutText)
+	if lerr != nil {
+		t.Fatalf("VERIF-INTERNAL layout does not parse: %v", lerr)
+	}
 	shared := make([]*plush.Template, nprog)
 	parents := make([]*plush.Context, nprog)
 	var snaps []*liveTmpl
@@ -194,6 +203,13 @@ func c14ExecRun(t *rapid.T) {
 					out, err = safeExec(shared[o.prog], ctx)
 				case 4:
 					out, err = safeExec(shared[o.prog].Clone(), ctx)
+				case 5:
+					out, err = safeExec(shared[o.prog], ctx)
+					if err == nil {
+						var lout string
+						lout, err = safeExec(sharedLayout, ctx)
+						out += "¦" + lout
+					}
 				case 1:
 					var tm *plush.Template
 					ev := cacheEvent{text: p.Main, call: simrt.Tick()}
@@ -307,14 +323,18 @@ func c14ExecRun(t *rapid.T) {
 	// concurrent run (so that nothing the reference touches — lazily
 	// initialised or memoised process-wide state — is already warm when the
 	// tasks run), under a single-task simulation
-	type refKey struct{ prog, variant int }
+	type refKey struct {
+		prog, variant int
+		layout        bool
+	}
 	ref := map[refKey]execRes{}
 	for _, ops := range plan {
 		for _, o := range ops {
-			k := refKey{o.prog, o.variant}
+			k := refKey{o.prog, o.variant, o.kind == 5}
 			if _, ok := ref[k]; ok {
 				continue
 			}
+			withLayout := o.kind == 5
 			p := progs[o.prog]
 			rt := newRuntime(p, true)
 			rt.Variant = o.variant
@@ -329,7 +349,16 @@ func c14ExecRun(t *rapid.T) {
 				tm, err := plush.NewTemplate(p.Main)
 				var out string
 				if err == nil {
-					out, err = safeExec(tm, mkCtx(parent, rt))
+					ctx := mkCtx(parent, rt)
+					out, err = safeExec(tm, ctx)
+					if err == nil && withLayout {
+						var lt *plush.Template
+						var lout string
+						if lt, err = plush.NewTemplate(layoutText); err == nil {
+							lout, err = safeExec(lt, ctx)
+							out += "¦" + lout
+						}
+					}
 				}
 				res := result(out, err, rt)
 				r = execRes{out: res.out, err: res.err, log: res.log}
@@ -345,7 +374,7 @@ func c14ExecRun(t *rapid.T) {
 	for i, ops := range plan {
 		for x, o := range ops {
 			got := results[i][x]
-			want := ref[refKey{o.prog, o.variant}]
+			want := ref[refKey{o.prog, o.variant, o.kind == 5}]
 			count("c14_exec_results_compared", 1)
 			if got.out != want.out || got.err != want.err {
 				violate(t, "C14", "concurrent-execution-equals-execution-alone", "result-differs:"+scName, details(fmt.Sprintf("T%d op %d (%s) returned\n  out=%q err=%q\nalone it returns\n  out=%q err=%q", i, x, o, got.out, got.err, want.out, want.err)))
